@@ -441,6 +441,10 @@ fn lib_expr(cx: &Ctx, e: &Expr) -> R<Option<String>> {
                     return Err("map_err closure".into());
                 }
                 ("ok", 0) => format!("(Except.toOption {})", paren(&expr(cx, &m.receiver)?)),
+                // `a.into()`: the only conversion whose source is an affine point is `From<AffineG1> for G1` / `From<AffineG2> for G2`
+                // (translated and proved equal to `AffineG.to_jacobian` on every run: LibG1_from / LibG2_from); Lean's type checker
+                // rejects the rendering for a receiver of any other type (the function is then left out and reported)
+                ("into", 0) => format!("(Sm9.AffineG.to_jacobian {})", paren(&expr(cx, &m.receiver)?)),
                 ("ok_or", 1) if cx.ret_result => { let r = expr(cx, &m.receiver)?; format!("(match {} with | some v => Except.ok v | none => Except.error {})", r, paren(&expr(cx, &m.args[0])?)) }
                 // `x.into_u256().is_even()` on a lib.rs `Fq`: parity of the canonical value
                 ("is_even", 0) if matches!(&*m.receiver, Expr::MethodCall(i) if i.method == "into_u256" && i.args.is_empty()) => {
@@ -1358,6 +1362,10 @@ fn block_is_unit(b: &Block) -> bool {
     }
 }
 
+fn contains_return_expr(e: &Expr) -> bool {
+    quote::quote!(#e).to_string().split(|c: char| !(c.is_alphanumeric() || c == '_')).any(|t| t == "return")
+}
+
 fn contains_return(b: &Block) -> bool {
     quote::quote!(#b).to_string().contains("return ")
 }
@@ -1390,6 +1398,32 @@ fn for_iter(cx: &Ctx, e: &Expr) -> R<String> {
 
 fn match_expr(cx: &Ctx, m: &ExprMatch, ind: usize) -> R<String> {
     let pad = " ".repeat(ind);
+    // Guarded arms (`P if g => B`).  Rust tries the arms in order; a guarded arm whose pattern matches and whose guard is false
+    // falls through to the arms after it.  Rendered exactly so: the scrutinee is evaluated once and bound (`let m0 := ..`), the
+    // guarded arm is `| P => if g then B else (match m0 with <the other arms that can still match>)`, where the fallback match
+    // consists of the earlier *unguarded* arms (none of them matches — otherwise this arm would not have been reached — they
+    // only keep the fallback exhaustive) and all later arms (with their guards).  Without a guard nothing changes.
+    if m.arms.iter().any(|a| a.guard.is_some()) && !matches!(&*m.expr, Expr::Path(p) if p.path.segments.len() == 1 && path_str(&p.path).starts_with("gm__")) {
+        let elems: Vec<&Expr> = match &*m.expr { Expr::Tuple(t) => t.elems.iter().collect(), o => vec![o] };
+        let mut lets = String::new();
+        let mut names: Vec<Expr> = vec![];
+        for x in elems {
+            let v = expr(cx, x)?;
+            let k = cx.fresh.get(); cx.fresh.set(k + 1);
+            let n = format!("gm__{}", k);
+            writeln!(lets, "{}let {} := {}", pad, n, v).unwrap();
+            let id = Ident::new(&n, proc_macro2::Span::call_site());
+            names.push(parse_quote!(#id));
+        }
+        if !cx.binds.borrow().is_empty() && !cx.outcome { return Err("panic site in the scrutinee of a guarded match".into()); }
+        let mut pre = String::new();
+        flush(cx, &pad, &mut pre);
+        let mut m2 = m.clone();
+        m2.expr = Box::new(if names.len() == 1 { names.pop().unwrap() } else { parse_quote!((#(#names),*)) });
+        let inner = match_guarded(cx, &m2, ind)?;
+        return Ok(format!("{}{}{}", pre, lets, inner));
+    }
+    if m.arms.iter().any(|a| a.guard.is_some()) { return match_guarded(cx, m, ind); }
     let scrut = match &*m.expr {
         Expr::Tuple(t) => { let v: R<Vec<String>> = t.elems.iter().map(|x| expr(cx, x)).collect(); v?.join(", ") }
         o => expr(cx, o)?,
@@ -1408,17 +1442,21 @@ fn match_expr(cx: &Ctx, m: &ExprMatch, ind: usize) -> R<String> {
             _ => Err("match pattern".to_string()),
         }
     }
-    fn pat_top(cx: &Ctx, p: &Pat) -> R<Vec<String>> {
+    // `arity`: number of components of a tuple scrutinee (Lean matches them as separate discriminants: a catch-all `_` arm is `_, _`)
+    fn pat_top(cx: &Ctx, p: &Pat, arity: usize) -> R<Vec<String>> {
         match p {
-            Pat::Or(o) => { let mut v = vec![]; for c in &o.cases { v.extend(pat_top(cx, c)?); } Ok(v) }
-            Pat::Tuple(t) => { let v: R<Vec<String>> = t.elems.iter().map(|p| pat_elem(cx, p)).collect(); Ok(vec![v?.join(", ")]) }
+            Pat::Or(o) => { let mut v = vec![]; for c in &o.cases { v.extend(pat_top(cx, c, arity)?); } Ok(v) }
+            Pat::Tuple(t) => { if t.elems.len() != arity { return Err("tuple pattern arity".into()); } let v: R<Vec<String>> = t.elems.iter().map(|p| pat_elem(cx, p)).collect(); Ok(vec![v?.join(", ")]) }
+            Pat::Wild(_) if arity > 1 => Ok(vec![vec!["_"; arity].join(", ")]),
+            _ if arity > 1 => Err("non-tuple pattern for a tuple scrutinee".into()),
             other => Ok(vec![pat_elem(cx, other)?]),
         }
     }
+    let arity = match &*m.expr { Expr::Tuple(t) => t.elems.len(), _ => 1 };
     for arm in &m.arms {
-        // a guard restricts the arm: dropping it would change the meaning
+        // a guard restricts the arm: dropping it would change the meaning (guards are rewritten by `match_guarded` before)
         if arm.guard.is_some() { return Err("match guard".into()); }
-        let pats = pat_top(cx, &arm.pat)?;
+        let pats = pat_top(cx, &arm.pat, arity)?;
         // an arm that is `return X` (the match is in tail position of the function: `match_expr` is only used for the last
         // statement of a function body / `return match`, and for the arms `desugar.rs` creates there): its value is X
         let is_tail = cx.fn_tail.get();
@@ -1451,6 +1489,34 @@ fn match_expr(cx: &Ctx, m: &ExprMatch, ind: usize) -> R<String> {
         for p in pats { writeln!(s, "{}| {} =>\n{}", pad, p, body).unwrap(); }
     }
     Ok(s.trim_end().to_string())
+}
+
+/// a `match` with guarded arms whose scrutinee is already bound to variables (see `match_expr`): the first guarded arm
+/// `P if g => B` becomes `P => if g { B } else { match <scrutinee> { <earlier unguarded arms> <later arms> } }` and the result is
+/// translated again (the fallback may itself contain guarded arms)
+fn match_guarded(cx: &Ctx, m: &ExprMatch, ind: usize) -> R<String> {
+    let Some(gi) = m.arms.iter().position(|a| a.guard.is_some()) else { return match_expr(cx, m, ind) };
+    let mut fallback = m.clone();
+    fallback.arms = m.arms.iter().enumerate().filter(|(i, a)| *i > gi || (*i < gi && a.guard.is_none())).map(|(_, a)| a.clone()).collect();
+    if fallback.arms.is_empty() { return Err("guarded match arm without a fallback".into()); }
+    let mut m2 = m.clone();
+    let arm = &mut m2.arms[gi];
+    let (_, g) = arm.guard.take().unwrap();
+    if matches!(&*g, Expr::Let(_)) || has_try(&g) { return Err("match guard with `let` / `?`".into()); }
+    let body = arm.body.clone();
+    if !cx.fn_tail.get() && contains_return_expr(&body) { return Err("`return` in a guarded match arm outside tail position".into()); }
+    let fb = Expr::Match(fallback);
+    // in tail position of the function an arm `return X` has the value X (as in `match_expr`); elsewhere a `return` is refused there
+    let then_e: Expr = match &*body { Expr::Block(_) => (*body).clone(), o => parse_quote!({ #o }) };
+    arm.body = Box::new(parse_quote!(if #g #then_e else { #fb }));
+    if arm.comma.is_none() { arm.comma = Some(Default::default()); }
+    // the rewritten arm now takes every value of its pattern: a later arm with the same pattern (or any later arm, when the
+    // pattern is `_`) has become unreachable in the outer match (it lives on in the fallback) — Lean rejects redundant alternatives
+    let pat_s = { let p = &m2.arms[gi].pat; quote::quote!(#p).to_string() };
+    let catch_all = matches!(&m2.arms[gi].pat, Pat::Wild(_));
+    let mut k = 0usize;
+    m2.arms.retain(|a| { let i = k; k += 1; let p = &a.pat; !(i > gi && (catch_all || quote::quote!(#p).to_string() == pat_s)) });
+    match_expr(cx, &m2, ind)
 }
 
 /// does the body call something whose model counterpart is `Outcome`-valued?
